@@ -143,16 +143,20 @@ PROPS = {
     ),
     "C29": dict(
         level="translation_validation",
-        technique="Coq proof about a transcription of ResolvePath/relPath/KeyValueAsString (induction over chains of any length) + per-run correspondence on every enumerated accessor chain + tag-path check",
+        technique="Coq proof about a transcription of ResolvePath/relPath/KeyValueAsString (induction over chains of any length) + per-run correspondence on every enumerated accessor chain + tag-path check "
+                  "+ transcription of ygot.ModifyKey / generated XxxAny()+With<Key>() (induction over sequences of key writes) + per-run trace check of programs of With calls and resolutions on live path structs",
         claim="c29_resolve (any chain length): resolve = concatenation of relative paths; c29_resolve_names; keys rendered by key_to_string under their names (c29_rel_keys, c29_keys_rendered), "
               "wildcards '*' (c29_wildcard); errors propagate, bad root fails (c29_bad_root). Every run enumerates the generated path API by reflection and compares model = implementation "
-              "and element names = GoStruct tag path.",
-        note="Trusted: Coq kernel; c29_paths.go (reflection enumeration, accessor harness_accessors/ygot/c29_acc.go); %g float text as oracle table.",
-        coq_files=["Gen/PathStructs", "Gen/PathStructsProofs"],
+              "and element names = GoStruct tag path. Builder-style list API: c29_builder_keys (closed form after any sequence of With calls: last write per key wins, '*' until set), "
+              "c29_builder_resolve (end to end), c29_builder_frame / _frame_above / _names (only the written node's keys change), c29_builder_rekey, c29_builder_bad_value, c29_builder_nil_map; every "
+              "run executes With/resolve programs and compares the model state with the NodePaths read back and the model's resolve with ygot.ResolvePath at every resolution.",
+        note="Trusted: Coq kernel; c29_paths.go and c29_builder.go (reflection enumeration, accessor harness_accessors/ygot/c29_acc.go); %g float text as oracle table.",
+        coq_files=["Gen/PathStructs", "Gen/PathStructsProofs", "Gen/PathBuilder", "Gen/PathBuilderProofs"],
         streams=[],
         pre=lambda tier, seed: __import__("c29_pre").pre(tier, seed),
-        trusted=["c29_paths.go + c29_acc.go", "float %g oracle"],
-        partial="path structs exist for compressed code only; builder API (list_builder_key_threshold) and split_pathstructs_by_module are not enumerated; accessors whose enum type has no defined value are skipped (counted).",
+        trusted=["c29_paths.go + c29_acc.go", "c29_builder.go (reflection enumeration, With-method/key mapping via path tags)", "float %g oracle"],
+        partial="path structs exist for compressed code only; split_pathstructs_by_module is not enumerated; builder programs cover one chain at a time (two sibling children of one builder node are "
+                "not resolved in the same program); generate_wildcard_paths=false is not in the corpus; accessors whose enum type has no defined value are skipped (counted).",
     ),
     "C28": dict(
         level="proof",
